@@ -135,6 +135,64 @@ def run_check(tier, seed):
         jobs.append((n, lim, [['load', o, None], ['load', n, None], ['load', n, lim]], 'limit after full load and %s' % o))
         jobs.append((n, ['thm', 'no_such_item_xyz'], [['load', n, ['thm', 'no_such_item_xyz']]], 'missing-limit'))
 
+    # ---- content oracle for limits (computed from the JSON files, independent of the loader): the theorems stated by the
+    #      transitive imports and by the theory's own items before the limit are present, those stated from the limit on are
+    #      not.  Directed: limits whose (ty, name) also names an item of an imported theory (overloaded constants are defined
+    #      once per type), and limits that exist in an imported theory only (must be refused).
+    def trans_imports(n_, seen=None):
+        seen = [] if seen is None else seen
+        for m_ in info[n_].get('imports', []):
+            if m_ in info and m_ not in seen:
+                trans_imports(m_, seen)
+                seen.append(m_)
+        return seen
+
+    def thm_names(items_):
+        return [it_['name'] for it_ in items_ if it_.get('ty') in ('thm', 'thm.ax') and 'name' in it_]
+    content_jobs = []
+    shared, foreign = [], []
+    for n in names:
+        imps = trans_imports(n)
+        imp_items = set((it_.get('ty'), it_.get('name')) for m_ in imps for it_ in info[m_].get('content', []) if 'name' in it_)
+        own = [it_ for it_ in info[n].get('content', []) if 'name' in it_]
+        own_keys = set((it_['ty'], it_['name']) for it_ in own)
+        for k_, it_ in enumerate(own):
+            if (it_['ty'], it_['name']) in imp_items and it_['ty'] not in ('thm', 'thm.ax'):
+                shared.append((n, k_))
+        only_imp = sorted(k for k in imp_items if k not in own_keys and k[0] in ('def', 'def.ax', 'thm', 'thm.ax') and k[1])
+        if only_imp:
+            foreign.append((n, r.choice(only_imp)))
+    picks = shared if tier != 'quick' else r.sample(shared, min(5, len(shared)))
+    for n, k_ in picks:
+        own = [it_ for it_ in info[n].get('content', []) if 'name' in it_]
+        it_ = own[k_]
+        lim = [it_['ty'], it_['name']]
+        before = info[n]['content'][:info[n]['content'].index(it_)]
+        present = [x for m_ in trans_imports(n) for x in thm_names(info[m_].get('content', []))] + thm_names(before)
+        after = [x for x in thm_names(info[n]['content'][info[n]['content'].index(it_):]) if x not in present]
+        content_jobs.append((n, lim, [['load', n, lim], ['expect_thms', present, after]], 'limit-content'))
+    for n, (ty_, nm_) in (foreign if tier != 'quick' else r.sample(foreign, min(4, len(foreign)))):
+        jobs.append((n, [ty_, nm_], [['load', n, [ty_, nm_]]], 'missing-limit'))
+    content_results = []
+    with ThreadPoolExecutor(max_workers=NCPU) as ex:
+        content_results = list(ex.map(lambda j: run_history(j[2]), content_jobs))
+    for (n, lim, hist, descr), res in zip(content_jobs, content_results):
+        run.stat('history:limit-content')
+        run.count((n, json.dumps(lim), descr), nontrivial=True)
+        ex_ = [x for x in res if x and x[0] == 'expect_thms']
+        if not ex_:
+            ll_ = last_load(res)
+            run.violation('property', 'load_theory(%s, limit=%s) fails although the limit names an item of the theory: %s' % (n, lim, (ll_ or res[-1:])[3:6] if ll_ else res[-1:]),
+                          dict(theory=n, limit=lim, result=res[-2:]), key='C12:limit-content:fails')
+            continue
+        _, n_exp, missing, n_missing, extra, n_extra = ex_[0]
+        if n_missing or n_extra:
+            run.violation('property', 'load_theory(%s, limit=%s): %d of the %d theorems of the imports / of the items before the limit are missing (%s ...), %d theorems stated from the limit on are present (%s ...)'
+                          % (n, lim, n_missing, n_exp, missing[:3], n_extra, extra[:3]),
+                          dict(theory=n, limit=lim, missing=missing, missing_count=n_missing, unexpected=extra, unexpected_count=n_extra,
+                               reproduce="basic.load_theory(%r, limit=%r); theory.thy.has_theorem(name)" % (n, tuple(lim))), key='C12:limit-content')
+    run.cov['search_limit_content'] = dict(shared_name_limits=len(shared), checked=len(content_jobs), limits_only_in_imports=len(foreign))
+
     # ---- file-system histories on a scratch copy of the library
     scratch = tempfile.mkdtemp(prefix='c12_scratch_')
     try:
